@@ -156,6 +156,13 @@ def run_output_sxr(key):
     noise = signals(seed, 'generic' if kind == 'clean' else kind, (Kt, T), 'noise') * (0.3 if kind != 'clean' else 3e-3)
     if kind == 'integer':
         noise = signals(seed, kind, (Kt, T), 'noise')
+    if kind == 'near_tie':
+        # two outputs carry the same images up to a gain of 1 + 2e-6 (captured powers 4e-6 apart, relatively) but
+        # differ by 20 dB in their noise: the selection is still the one that captures more source power
+        img = signals(seed, 'generic', (Ks, Kt, T), 'img') * (0.3 + np.eye(Ks, Kt)[:, :, None] * 2)
+        noise = signals(seed, 'generic', (Kt, T), 'noise') * 0.3
+        img[:, Kt - 1] = img[:, 0] * (1 + 2e-6)
+        noise[Kt - 1] = noise[0] * 10
     img, noise = A.relayout(img, key.get('layout', 'C')), A.relayout(noise, key.get('layout', 'C'))
     img.setflags(write=False)
     noise.setflags(write=False)
@@ -394,7 +401,9 @@ def subchecks(tier, seed):
                 for Kt in (1, 2, 3, 4, 5):
                     if Kt < Ks:
                         continue
-                    for kind in ('integer', 'generic', 'clean'):
+                    for kind in ('integer', 'generic', 'clean', 'near_tie'):
+                        if kind == 'near_tie' and Kt < 2:
+                            continue
                         for T in (8, 64) + ((4096,) if thorough else ()):
                             for v in range(3 if not thorough else 6):
                                 yield (Ks, Kt, kind, T, 'C', seed * 100 + v)
